@@ -50,7 +50,7 @@ func Spec() *run.Spec {
 		Rule: "Phase `cuts` (EXHAUSTIVE over the stated cut set): per run 128 (quick) / 1280 (thorough) valid files are generated, 8 / 80 of each of 16 kinds: PLY ascii / binary LE / binary BE " +
 			"× {cloud, mesh, mesh with per-face texcoords} written by polyform, PLY of the three encodings written by an independent writer " +
 			"(CRLF, comments, double/uchar/int properties, quads, uint/int list counts, texcoord lists, `element face 0`, whitespace runs), " +
-			"the splat-PLY export, binary STL (polyform / independent writer), SPZ v1 and v2 with every SH degree 0–3 from the reference encoder, each degree both deflated and in stored (level 0) blocks, " +
+			"the splat-PLY export, binary STL (polyform writer: zeroed comment; independent writer: 80-byte comments of 7 further kinds — random bytes, \"solid name\", \"  solid x\", \"SOLID …\", \"binary stl …\", text with a newline, 80 printable characters), SPZ v1 and v2 with every SH degree 0–3 from the reference encoder, each degree both deflated and in stored (level 0) blocks, " +
 			"PTS with 3/4/7 columns (0, 1, n points) and .splat (reference encoder / polyform writer); in thorough 160 of the files are large (8–64 KiB). " +
 			"For each file EVERY cut position 0…len−1 of binary data and of textual headers, and every position not strictly inside a token of an ASCII body, " +
 			"is decoded through a plain io.Reader that hands over all it has; every cut of a file of at most 4096 bytes is decoded a second time through a rotating reader kind " +
@@ -74,32 +74,41 @@ func Spec() *run.Spec {
 		},
 		MinNontrivial: map[string]int{"quick": 150, "thorough": 2000},
 		MinObserved: map[string]int64{
-			"files":                              100,
-			"cuts/ply-ascii":                     1500,
-			"cuts/ply-le":                        1500,
-			"cuts/ply-be":                        1500,
-			"cuts/stl":                           500,
-			"cuts/spz":                           500,
-			"cuts/pts":                           150,
-			"cuts/splat":                         300,
-			"outcome/spz/error":                  300,
-			"outcome/splat/partial-splat":        4,
-			"cuts/spz/sh-degree-1":               300,
-			"cuts/spz/sh-degree-2":               300,
-			"cuts/spz/sh-degree-3":               300,
-			"spz_sh_degree_x_gzip":               8,
-			"truncated_decode_reader_kinds":      7,
-			"complete_decode_reader_kinds":       10,
-			"large/files":                        10,
-			"large/kinds":                        10,
-			"large/cuts/ply-le":                  300,
-			"large/cuts/ply-be":                  300,
-			"large/cuts/ply-ascii":               100,
-			"large/cuts/stl":                     150,
-			"large/cuts/spz":                     150,
-			"large/cuts/splat":                   150,
-			"large/cuts/pts":                     150,
-			"large/decodes_under_stall_detector": 1500,
+			"files":                                  100,
+			"cuts/ply-ascii":                         1500,
+			"cuts/ply-le":                            1500,
+			"cuts/ply-be":                            1500,
+			"cuts/stl":                               500,
+			"cuts/spz":                               500,
+			"cuts/pts":                               150,
+			"cuts/splat":                             300,
+			"outcome/spz/error":                      300,
+			"outcome/splat/partial-splat":            4,
+			"cuts/spz/sh-degree-1":                   300,
+			"cuts/spz/sh-degree-2":                   300,
+			"cuts/spz/sh-degree-3":                   300,
+			"cuts/stl/header-kind/zeros":             100,
+			"cuts/stl/header-kind/random-bytes":      100,
+			"cuts/stl/header-kind/solid-name":        100,
+			"cuts/stl/header-kind/blank-solid":       100,
+			"cuts/stl/header-kind/upper-SOLID":       100,
+			"cuts/stl/header-kind/binary-stl-text":   100,
+			"cuts/stl/header-kind/text-with-newline": 100,
+			"cuts/stl/header-kind/80-printable":      100,
+			"path/stl_header_kinds":                  8,
+			"spz_sh_degree_x_gzip":                   8,
+			"truncated_decode_reader_kinds":          7,
+			"complete_decode_reader_kinds":           10,
+			"large/files":                            10,
+			"large/kinds":                            10,
+			"large/cuts/ply-le":                      300,
+			"large/cuts/ply-be":                      300,
+			"large/cuts/ply-ascii":                   100,
+			"large/cuts/stl":                         150,
+			"large/cuts/spz":                         150,
+			"large/cuts/splat":                       150,
+			"large/cuts/pts":                         150,
+			"large/decodes_under_stall_detector":     1500,
 		},
 		Phases: []run.Phase{
 			{Name: "cuts", Cases: func(tier string) int { return filesPer(tier) * chunksPer(tier) }, Run: runChunk, Batch: 8, CPUBudgetS: 10},
@@ -426,6 +435,9 @@ func runChunk(c *run.Ctx) (res run.Result) {
 			if f.SPZGz == "stored" {
 				res.Count(fmt.Sprintf("cuts/spz/sh-degree-%d/stored-blocks", f.SPZDeg), 1)
 			}
+		}
+		if f.STLHeader != "" {
+			res.Count("cuts/stl/header-kind/"+f.STLHeader, 1)
 		}
 		res.SetAdd("truncated_decode_reader_kinds", "plain-cutReader")
 		outcomes[s.judge(cut, s.truncated(f.Data[:cut], "plain-cutReader", cut), "outcome/", "")]++
